@@ -287,10 +287,54 @@ def handleRetry (inp impl : Json) : Verdict :=
     model := toJson (modelOut.map (fun p => Json.arr #[p.1, toJson p.2])),
     why := if holds then "" else "deliveries per test name differ from the retry rule: expected " ++ toString specOut }
 
+/-! ### real peers over loopback: the property's predicate only (no model) -/
+
+def liveOK (isServer : Bool) (req : Json) (traces : List Obs) : Option String :=
+  let name := str (field req "name")
+  let got := traces.filter (fun o => o.name == name)
+  match got with
+  | [t] =>
+    let ct := str (field req "ct")
+    let reqFields : Fields := [("content-type", ct)]
+    let cfgQ : DCfg := { isReq := true, isStream := (propsOf reqFields).1, dec := (propsOf reqFields).2 }
+    let cfgP : DCfg := { isReq := false, isStream := (propsOf reqFields).1, dec := (propsOf reqFields).2 }
+    let reqBody := unhex (str (field req "reqBody"))
+    let respBody := unhex (str (field req "respBody"))
+    let path := str (field req "path")
+    let big := nat (field req "big")
+    let hdr (k : String) : List String := ((t.headers.find? (·.1 == k)).map (·.2)).getD []
+    let side := if isServer then "server" else "client"
+    if t.method != "POST" then some s!"{side} {name}: method {t.method}"
+    else if (if t.query.isEmpty && !t.forceQuery then t.path else t.path ++ "?" ++ t.query) != path then some s!"{side} {name}: path"
+    else if hdr "x-test-case-name" != [name] || hdr "content-type" != [ct] then some s!"{side} {name}: request headers"
+    else if big > 0 && (hdr "x-big").map String.length != [big] then some s!"{side} {name}: the large request header is missing"
+    else if !t.hasResp || t.status != nat (field req "status") then some s!"{side} {name}: response status"
+    else if ((t.respHeaders.find? (·.1 == "content-type")).map (·.2)).getD [] != [ct] then some s!"{side} {name}: response headers"
+    else if reqMsgsOf t.events != specMsgs cfgQ reqBody then some s!"{side} {name}: request messages"
+    else if respMsgsOf t.events != specMsgs cfgP respBody then some s!"{side} {name}: response messages"
+    else if t.events.head? != some OEv.reqStart || t.events.getLast? != some (OEv.respEnd .none) || t.err != .none then
+      some s!"{side} {name}: start / end of the trace"
+    else none
+  | l => some s!"{if isServer then "server" else "client"}: {l.length} completed traces for test {name}, expected exactly one"
+
+def handleLive (inp impl : Json) : Verdict :=
+  let panic := str (field impl "panic")
+  if panic != "" then { agree := false, holds := false, why := "panic: " ++ panic } else
+  if str (field impl "err") != "" then bad ("live exchange could not be run: " ++ str (field impl "err")) else
+  let reqs := arr (field inp "reqs")
+  let client := (arr (field impl "client")).map parseObs
+  let server := (arr (field impl "server")).map parseObs
+  let problems := reqs.filterMap (fun r => liveOK false r client) ++ reqs.filterMap (fun r => liveOK true r server)
+  let extra := (client ++ server).filter (fun o => !(reqs.any (fun r => str (field r "name") == o.name)))
+  let holds := problems.isEmpty && extra.isEmpty
+  { agree := holds, holds := holds, nontrivial := true, cls := "live",
+    why := if holds then "" else (problems.head?.getD "trace for an unknown test name") }
+
 def handle : Handler := fun op inp impl =>
   match op with
   | "conn" => handleConn inp impl
   | "retry" => handleRetry inp impl
+  | "live" => handleLive inp impl
   | _ => bad ("C15: unknown op " ++ op)
 
 end ConfModel.Driver.C15
